@@ -4,6 +4,7 @@ import (
 	"fmt"
 	"go/ast"
 	"go/token"
+	"sort"
 	"strconv"
 	"strings"
 )
@@ -53,9 +54,75 @@ func constString(c *Ctx, rel, name string) (string, string, bool) {
 	return val, pos, found
 }
 
+// foldCalls scans bridge.go and webbridge/*.go (non-test, non-verif): every X.EqualFold call ("file:func:pkg.EqualFold"), and
+// every call that folds or maps case the Unicode way ("file:func:pkg.Func").
+func foldCalls(c *Ctx) (fold []string, unicodeCalls []string, asciiImport string) {
+	files := []string{"bridge.go"}
+	files = append(files, goFiles(c, "webbridge")...)
+	unicodeCase := map[string]bool{"strings.EqualFold": true, "strings.ToLower": true, "strings.ToUpper": true, "strings.ToTitle": true,
+		"strings.Title": true, "strings.ToLowerSpecial": true, "strings.ToUpperSpecial": true,
+		"bytes.EqualFold": true, "bytes.ToLower": true, "bytes.ToUpper": true, "bytes.ToTitle": true, "bytes.Title": true}
+	for _, rel := range files {
+		f := c.File(rel)
+		if f == nil {
+			fold = append(fold, rel+":<unparsable>")
+			continue
+		}
+		for _, imp := range f.Imports {
+			path, _ := strconv.Unquote(imp.Path.Value)
+			name := path[strings.LastIndex(path, "/")+1:]
+			if imp.Name != nil {
+				name = imp.Name.Name
+			}
+			if rel == "bridge.go" && name == "ascii" {
+				asciiImport = path
+			}
+			if path == "unicode" || strings.HasPrefix(path, "golang.org/x/text/cases") {
+				unicodeCalls = append(unicodeCalls, rel+":import:"+path)
+			}
+		}
+		for _, decl := range f.Decls {
+			fd, ok := decl.(*ast.FuncDecl)
+			if !ok || fd.Body == nil {
+				continue
+			}
+			ast.Inspect(fd.Body, func(n ast.Node) bool {
+				ce, ok := n.(*ast.CallExpr)
+				if !ok {
+					return true
+				}
+				sel, ok := ce.Fun.(*ast.SelectorExpr)
+				if !ok {
+					return true
+				}
+				x, ok := sel.X.(*ast.Ident)
+				if !ok {
+					return true
+				}
+				q := x.Name + "." + sel.Sel.Name
+				if sel.Sel.Name == "EqualFold" {
+					fold = append(fold, rel+":"+fd.Name.Name+":"+q)
+				}
+				if unicodeCase[q] || x.Name == "unicode" || x.Name == "cases" {
+					unicodeCalls = append(unicodeCalls, rel+":"+fd.Name.Name+":"+q)
+				}
+				return true
+			})
+		}
+	}
+	sort.Strings(fold)
+	sort.Strings(unicodeCalls)
+	return
+}
+
 // WebBridge.ServeHTTP header tests, the media type constant, the metadata parameter name and the
 // byte classes of isValidMetadataKey / isValidMetadataValue.
 func extractC19(c *Ctx) {
+	fold, uni, asciiImport := foldCalls(c)
+	c.Add("c19FoldCalls", "List String", LeanStrList(fold), "", "every X.EqualFold call of bridge.go and webbridge/*.go (file:function:pkg.EqualFold)")
+	c.Add("c19UnicodeCaseCalls", "List String", LeanStrList(uni), "", "Unicode case folding/mapping calls (strings/bytes EqualFold/ToLower/ToUpper/…, unicode.*, x/text/cases) in bridge.go and webbridge/*.go")
+	c.Add("c19AsciiImport", "String", LeanStr(asciiImport), "", "import path behind the identifier ascii in bridge.go")
+
 	// (header name, token) arguments of the headerHasToken calls in ServeHTTP, in source order
 	var calls []string
 	src := ""
